@@ -521,7 +521,10 @@ def selftest_replay(ctx, chosen, want):
     bad = set(js["bad_behaviours"] or [])
     missed = [descr[i] for i in range(len(lines)) if i not in bad]
     # and the harness' own corruption switch: one observed message forgotten per behaviour
-    st2, js2 = replay(ctx, [c[0] for c in cheap[:3]], "selftest_obs", report=False, extra=["-corrupt"])
+    withmsgs = [c[0] for c in cheap if any(len(g) > 0 for g in json.loads(c[0])["gen"])][:3]
+    if len(withmsgs) < 3:
+        raise common.Infra("self-test could not find behaviours with messages")
+    st2, js2 = replay(ctx, withmsgs, "selftest_obs", report=False, extra=["-corrupt"])
     bad2 = set(js2["bad_behaviours"] or [])
     if len(bad2) < 3:
         missed.append("a forgotten observed message went unnoticed")
